@@ -469,7 +469,7 @@ def run(run, tier, loadcfg):
     run.trusted = ['rustc MIR / type table', 'core::slice::from_raw_parts(ptr, n) yields a slice of n elements at ptr', 'Box::from_raw re-owns the allocation its pointer came from',
                    'layout: [[S; N]] of length m and [S] of length m*N occupy the same bytes (array layout guarantee)']
     run.assumptions = ['len * N does not overflow usize for slices that exist in memory']
-    cfgs = ['std-debug'] + (['std-release', 'nostd'] if tier == 'thorough' else [])
+    cfgs = ['std-debug', 'std-release'] + (['nostd'] if tier == 'thorough' else [])
     for cfg in cfgs:
         fx_ = loadcfg(cfg, optional=(cfg == 'nostd'))
         if fx_ is None:
